@@ -43,11 +43,13 @@ GRAMS = {
     'g6': "start::Prog::Base: 'x' v=val $ ;\n\nval::Item::Other: /[0-9]+/ ;\n",
     'g7': "@@keyword :: (let)\n\nstart: {stmt}+ $ ;\n\nstmt: 'let' n=name | n=name ;\n\n@name\nname: /[a-z]+/ ;\n",
     # a rule whose value is a bare scalar of varying type and equal value (True / 1 / 1.0): a cache keyed by value would confuse them
+    # node classes named like grammar-model classes: they must not disturb later reloads of grammar models from JSON
+    'g9': "start::Rule: {t+:tok}+ $ ;\n\ntok::Token: /[a-z]+/ ;\n",
     'g8': "start: {v}* $ ;\n\nv: 'b' @:@bool | 'i' @:@int | 'f' @:@float ;\n",
 }
 TEXTS = ['a b b', 'a', 'x, y', 'x', 'foo if', 'Foo BAR', '1+2+3', '1+', 'a b', 'a\nb', 'x 1', 'A B', 'let q r', 'let let', '', 'x,', 'A',
          'i 1 b true f 1.0', 'b true i 1', 'f 1.0 b true i 1', 'i 0 b false f 0.0', 'b false i 0']
-STARTS = {'g2': ['item'], 'g4': ['e', 't'], 'g5': ['other'], 'g6': ['val'], 'g7': ['stmt', 'name'], 'g3': ['id'], 'g8': ['v']}
+STARTS = {'g2': ['item'], 'g4': ['e', 't'], 'g5': ['other'], 'g6': ['val'], 'g7': ['stmt', 'name'], 'g3': ['id'], 'g8': ['v'], 'g9': ['tok']}
 
 
 class SemA:
@@ -161,6 +163,11 @@ def run_op(op, env):
             _, var, text, start, kw, sem = op
             p = env[var]
             return ('ok', canon(p.parse(text, start=start, semantics=SEMS[sem](), **kw)))
+        if kind == 'jsonload':
+            from tatsu.peg import Grammar
+            m = env[op[1]]
+            m2 = Grammar.loads(m.asjsons())
+            return ('ok', m2.pretty(), canon(m2.parse(op[2])) if op[2] is not None else None)
         if kind == 'gc':
             for v in op[1]:
                 env.pop(v, None)
@@ -222,7 +229,7 @@ def needed_ops(history, i):
     """ops that re-create, from descriptions, everything step i needs"""
     op = history[i]
     var = None
-    if op[0] in ('mparse', 'cparse', 'gparse'):
+    if op[0] in ('mparse', 'cparse', 'gparse', 'jsonload'):
         var = op[1]
     if var is None:
         return [op]
@@ -274,7 +281,7 @@ def run_history(history):
 
 
 OWN_TEXTS = {'g8': ['i 1 b true f 1.0', 'b true i 1', 'f 1.0 b true i 1', 'i 0 b false f 0.0', 'b false i 0'],
-             'g4': ['1+2+3', '1+'], 'g7': ['let q r', 'let let'], 'g3': ['foo if', 'Foo BAR'], 'g2': ['x, y', 'x', 'x,']}
+             'g4': ['1+2+3', '1+'], 'g7': ['let q r', 'let let'], 'g3': ['foo if', 'Foo BAR'], 'g2': ['x, y', 'x', 'x,'], 'g9': ['foo bar', 'x']}
 
 
 def pick_text(rnd, g):
@@ -318,6 +325,9 @@ def gen_history(rnd):
             g = parsers[var]
             op = ('gparse', var, pick_text(rnd, g), rnd.choice(STARTS.get(g, [None]) + [None, None]), rnd.choice([{}, {}, {'ignorecase': True}, {'parseinfo': True}, {'whitespace': ''}, {'asmodel': True}]),
                   rnd.choice(['none', 'none', 'A', 'B']))
+        elif c < 0.94 and models:
+            var = rnd.choice(list(models))
+            op = ('jsonload', var, pick_text(rnd, models[var]) if rnd.random() < 0.5 else None)
         elif c < 0.96:
             op = (rnd.choice(['src', 'pymodel']), rnd.choice(list(GRAMS)), rnd.choice([None, 'N1']))
         else:
